@@ -322,6 +322,10 @@ def root_sig(n):
     if k == "lit":
         f = lit_feats(n)
         if f[0] == "char":
+            if "plain" in f:
+                ch = n[1][n[1].index("'") + 1]
+                if not ch.isalnum():
+                    f = [x if x != "plain" else "plain(0x%02x)" % ord(ch) for x in f]
             return "literal=" + ",".join(f)
         # numeric: base [+sep] [+suffix] (the suffix letters folded to u / l / ul classes)
         out = [f[0]]
